@@ -344,6 +344,13 @@ pub(crate) fn msg_att_body_structure(i: &[u8]) -> IResult<&[u8], AttributeValue>
     })(i)
 }
 
+// "BODY" SP body -- the non-extensible form of BODYSTRUCTURE
+pub(crate) fn msg_att_body(i: &[u8]) -> IResult<&[u8], AttributeValue> {
+    map(preceded(tag_no_case("BODY "), body), |body| {
+        AttributeValue::BodyStructure(body)
+    })(i)
+}
+
 #[cfg(test)]
 mod tests {
     use super::*;
